@@ -81,13 +81,16 @@ def configs(tier):
           P(algs=7, dns=3, laddrs=18, ctos=1, dnstos=2, minlen=4, maxlen=4, canon=1), 1)
         A("btcp: canonical lists <=3, every local address kind, both timeouts, D<=2",
           P(algs=7, dns=3, laddrs=30, ctos=3, dnstos=2, maxlen=3, canon=1), 2)
-        A("btcp: canonical lists <=2, dns.algorithm unset too, D<=4", P(algs=15, dns=3, laddrs=31, ctos=3, dnstos=2, maxlen=2, canon=1), 4)
+        A("btcp: canonical lists <=2, D<=4", P(algs=7, dns=3, laddrs=31, ctos=3, dnstos=2, maxlen=2, canon=1), 4)
     d = 1 if q else 3
-    A("btcp: resolver fails / fails late / silent, every reporting call", P(algs=15, dns=28, laddrs=3, dnstos=3, probes=7), d)
-    A("btcp: late resolver against the default dns.timeout",
-      P(algs=7, dns=2, laddrs=1, ctos=1, dnstos=1, maxlen=2 if q else 3, canon=1), 1 if q else 2)
+    A("btcp: resolver fails / fails late / silent, dns.algorithm unset too, every reporting call",
+      P(algs=15, dns=28, laddrs=3, dnstos=3, probes=7), d)
+    A("btcp: late resolver against the default dns.timeout, dns.algorithm unset too",
+      P(algs=15, dns=2, laddrs=1, ctos=1, dnstos=1, maxlen=2, canon=1), 1 if q else 2)
     A("btcp: outcome reported by xcm_send / xcm_receive",
-      P(algs=7, dns=3, laddrs=1 if q else 3, ctos=1 if q else 3, dnstos=2, maxlen=2 if q else 3, probes=6, canon=1), 1 if q else 2)
+      P(algs=7, dns=3, laddrs=1 if q else 3, ctos=1, dnstos=2, maxlen=2 if q else 3, probes=6, canon=1), 1)
+    if not q:
+        A("btcp: outcome reported by xcm_send / xcm_receive, D<=2", P(algs=7, dns=3, laddrs=1, ctos=3, dnstos=2, maxlen=2, probes=6, canon=1), 2)
     for total, hit in ((33, 31), (40, 36), (32, 31)):
         A("btcp: %d-entry answer, only #%d accepts (32-entry cap)" % (total, hit),
           P(fam="cap", algs=6, dns=3, laddrs=3 if total == 33 else 1, ctos=1, dnstos=2, total=total, hit=hit), 1 if q else 2)
